@@ -1,8 +1,12 @@
 // Request/response skeleton translator for C17 (stdlib only). Reads pkg/p2p/message_protocol.go and emits coq/Gen/ReqResp.v:
 //   - gen_send_skel   : token list of MessageProtocol.sendRequestMessage (order of register vs send, what is done under resMu,
-//                       channel capacity, select branches, drain after timeout)
+//     channel capacity, select branches, drain after timeout)
 //   - gen_onresp_skel : token list of MessageProtocol.onResponse from mp.resMu.Lock() on (lookup, blocking / non-blocking send)
 //   - gen_max_retries, gen_timeout_ms : the constants messageMaxRetries, messageResponseTimeout
+//
+// Same-receiver helper methods of MessageProtocol that touch resMu / resCh / channels are INLINED (fixed depth 3, parameters and the
+// receiver name substituted textually, a deferred Unlock of the helper becomes an Unlock at its end) before the skeleton is read, so
+// that moving e.g. the Lock; delete; Unlock block into a helper called at the same position yields the same token list.
 // and checks (fail closed, exit 2) that: every statement of the two functions has a recognised shape, the part of onResponse
 // before the Lock does not touch resMu/resCh/channels, request() is the retry loop `for i := 0; i <= messageMaxRetries; i++`
 // that continues only on errTimeout, and no other function of the package (non-test, non-verif files) uses resMu or resCh.
@@ -18,6 +22,7 @@ import (
 	"go/token"
 	"os"
 	"path/filepath"
+	"regexp"
 	"sort"
 	"strconv"
 	"strings"
@@ -79,6 +84,140 @@ func hasChanOp(n ast.Node) bool {
 	return found
 }
 
+// ---- helper inlining
+
+var mpMethods = map[string]*ast.FuncDecl{} // methods with receiver *MessageProtocol of the package (non-test, non-verif files)
+var simpleArg = regexp.MustCompile(`^[A-Za-z_][A-Za-z0-9_]*(\.[A-Za-z_][A-Za-z0-9_]*|\(\))*$`)
+
+const maxInline = 3
+
+// touchesShared: the node uses resMu / resCh / a channel operation, directly or through MessageProtocol methods (fixed depth).
+func touchesShared(n ast.Node, depth int) bool {
+	if n == nil {
+		return false
+	}
+	if mentions(n, "resMu", "resCh") || hasChanOp(n) {
+		return true
+	}
+	if depth >= maxInline {
+		return false
+	}
+	found := false
+	ast.Inspect(n, func(x ast.Node) bool {
+		if c, ok := x.(*ast.CallExpr); ok {
+			if sel, ok := c.Fun.(*ast.SelectorExpr); ok {
+				if id, ok := sel.X.(*ast.Ident); ok && id.Name == "mp" {
+					if h := mpMethods[sel.Sel.Name]; h != nil && h.Body != nil && touchesShared(h.Body, depth+1) {
+						found = true
+					}
+				}
+			}
+		}
+		return true
+	})
+	return found
+}
+
+// helperCall: s is a statement `mp.h(args)` where h is an inlinable helper.
+func helperCall(s ast.Stmt) (*ast.FuncDecl, *ast.CallExpr) {
+	es, ok := s.(*ast.ExprStmt)
+	if !ok {
+		return nil, nil
+	}
+	c, ok := es.X.(*ast.CallExpr)
+	if !ok {
+		return nil, nil
+	}
+	sel, ok := c.Fun.(*ast.SelectorExpr)
+	if !ok {
+		return nil, nil
+	}
+	if id, ok := sel.X.(*ast.Ident); !ok || id.Name != "mp" {
+		return nil, nil
+	}
+	h := mpMethods[sel.Sel.Name]
+	if h == nil || h.Body == nil || !touchesShared(h.Body, 0) {
+		return nil, nil
+	}
+	return h, c
+}
+
+// expand replaces calls of inlinable helpers by their (substituted, re-parsed) bodies.
+func expand(list []ast.Stmt, depth int) []ast.Stmt {
+	var out []ast.Stmt
+	for _, s := range list {
+		h, c := helperCall(s)
+		if h == nil {
+			out = append(out, s)
+			continue
+		}
+		if depth >= maxInline {
+			fail("%s: helper calls nested deeper than %d: %s", pos(s), maxInline, src(s))
+		}
+		if h.Type.Results != nil && len(h.Type.Results.List) > 0 {
+			fail("%s: helper %s returns values, cannot be inlined as a statement", pos(s), h.Name.Name)
+		}
+		var body []string
+		deferred := ""
+		for i, st := range h.Body.List {
+			switch v := st.(type) {
+			case *ast.DeferStmt:
+				if deferred != "" {
+					fail("%s: helper %s defers more than one call", pos(st), h.Name.Name)
+				}
+				deferred = src(v.Call)
+				continue
+			case *ast.ReturnStmt:
+				if i != len(h.Body.List)-1 || len(v.Results) != 0 {
+					fail("%s: helper %s returns early, cannot be inlined", pos(st), h.Name.Name)
+				}
+				continue
+			}
+			ast.Inspect(st, func(x ast.Node) bool {
+				if r, ok := x.(*ast.ReturnStmt); ok {
+					fail("%s: helper %s returns early, cannot be inlined", pos(r), h.Name.Name)
+				}
+				if _, ok := x.(*ast.FuncLit); ok {
+					return false
+				}
+				return true
+			})
+			body = append(body, src(st))
+		}
+		if deferred != "" {
+			body = append(body, deferred) // a deferred call of the helper runs at the helper's end
+		}
+		txt := strings.Join(body, "\n")
+		subst := func(name, to string) {
+			if name == "" || name == "_" || name == to {
+				return
+			}
+			if !simpleArg.MatchString(to) {
+				to = "(" + to + ")"
+			}
+			txt = regexp.MustCompile(`\b`+regexp.QuoteMeta(name)+`\b`).ReplaceAllString(txt, strings.ReplaceAll(to, "$", "$$"))
+		}
+		if len(h.Recv.List[0].Names) == 1 {
+			subst(h.Recv.List[0].Names[0].Name, "mp")
+		}
+		i := 0
+		for _, f := range h.Type.Params.List {
+			for _, nm := range f.Names {
+				if i < len(c.Args) {
+					subst(nm.Name, src(c.Args[i]))
+				}
+				i++
+			}
+		}
+		f, err := parser.ParseFile(fset, "inlined_"+h.Name.Name+".go", "package p\nfunc _() {\n"+txt+"\n}\n", 0)
+		if err != nil {
+			fail("%s: cannot re-parse the inlined body of %s: %v", pos(s), h.Name.Name, err)
+		}
+		out = append(out, expand(f.Decls[0].(*ast.FuncDecl).Body.List, depth+1)...)
+	}
+	return out
+}
+
 type emitter struct{ toks []string }
 
 func (e *emitter) put(t string) { e.toks = append(e.toks, t) }
@@ -130,6 +269,7 @@ func retTok(s *ast.ReturnStmt) string {
 
 // sendStmts translates a statement list of sendRequestMessage.
 func (e *emitter) sendStmts(list []ast.Stmt, inTimeout bool) {
+	list = expand(list, 0)
 	for _, s := range list {
 		if t := lockStmt(s); t != "" {
 			e.put(t)
@@ -219,6 +359,7 @@ func (e *emitter) sendStmts(list []ast.Stmt, inTimeout bool) {
 
 // onRespLocked translates onResponse from the Lock on.
 func (e *emitter) onRespLocked(list []ast.Stmt) {
+	list = expand(list, 0)
 	for _, s := range list {
 		if t := lockStmt(s); t != "" {
 			e.put(t)
@@ -230,7 +371,7 @@ func (e *emitter) onRespLocked(list []ast.Stmt) {
 		}
 		e.put("KLookup")
 		sends := 0
-		for _, b := range v.Body.List {
+		for _, b := range expand(v.Body.List, 0) {
 			switch w := b.(type) {
 			case *ast.SendStmt:
 				if src(w.Chan) != "ch" {
@@ -296,6 +437,7 @@ func main() {
 	}
 	funcs := map[string]*ast.FuncDecl{}
 	users := map[string]bool{}
+	callers := map[string]map[string]bool{} // method name -> functions that contain a call x.<name>(...)
 	consts := map[string]string{}
 	for _, en := range ents {
 		n := en.Name()
@@ -311,6 +453,23 @@ func main() {
 			case *ast.FuncDecl:
 				if v.Body != nil && mentions(v.Body, "resMu", "resCh") {
 					users[v.Name.Name] = true
+				}
+				if v.Recv != nil && len(v.Recv.List) == 1 && strings.TrimPrefix(src(v.Recv.List[0].Type), "*") == "MessageProtocol" {
+					mpMethods[v.Name.Name] = v
+				}
+				if v.Body != nil {
+					caller := v.Name.Name
+					ast.Inspect(v.Body, func(x ast.Node) bool {
+						if c, ok := x.(*ast.CallExpr); ok {
+							if sel, ok := c.Fun.(*ast.SelectorExpr); ok {
+								if callers[sel.Sel.Name] == nil {
+									callers[sel.Sel.Name] = map[string]bool{}
+								}
+								callers[sel.Sel.Name][caller] = true
+							}
+						}
+						return true
+					})
 				}
 				if n == "message_protocol.go" {
 					funcs[v.Name.Name] = v
@@ -329,13 +488,36 @@ func main() {
 			}
 		}
 	}
+	// resMu / resCh may be used by onResponse, sendRequestMessage and by helper methods of MessageProtocol that are called only
+	// from these (transitively): such helpers are inlined below. Anybody else using the shared table is outside the model.
+	allowed := map[string]bool{"onResponse": true, "sendRequestMessage": true}
+	for changed := true; changed; {
+		changed = false
+		for u := range users {
+			if allowed[u] || mpMethods[u] == nil || len(callers[u]) == 0 {
+				continue
+			}
+			ok := true
+			for c := range callers[u] {
+				if !allowed[c] {
+					ok = false
+				}
+			}
+			if ok {
+				allowed[u] = true
+				changed = true
+			}
+		}
+	}
 	var us []string
 	for u := range users {
-		us = append(us, u)
+		if !allowed[u] {
+			us = append(us, u)
+		}
 	}
 	sort.Strings(us)
-	if strings.Join(us, ",") != "onResponse,sendRequestMessage" {
-		fail("resMu/resCh are used by an unexpected set of functions: %v", us)
+	if len(us) != 0 {
+		fail("resMu/resCh are used by functions outside the modelled ones (and their private helpers): %v", us)
 	}
 
 	// constants
@@ -410,7 +592,7 @@ func main() {
 			lockAt = i
 			break
 		}
-		if hasChanOp(s) || mentions(s, "resMu", "resCh") {
+		if touchesShared(s, 0) {
 			fail("%s: onResponse touches channels/resMu/resCh before taking the lock: %s", pos(s), src(s))
 		}
 	}
